@@ -245,13 +245,42 @@ def completeness_rule(repo, rep):
         rep.holds('R-DISPATCH', key, 'geodepy/angles.py:1', 'all five classes define %s; DMS and DDM also define __mod__' % ', '.join(sorted(ref)))
 
 
+def purity_rules(repo, rep):
+    """operators, conversions and rounding never modify their operands (an expression may use an operand twice)"""
+    from ..purity import Purity
+    pur = Purity(repo, ['geodepy.angles'])
+    n = 0
+    for f in pur.funcs:
+        if f.cls is None or f.name in ('__init__', '__new__'):
+            continue
+        n += 1
+        key = 'R-PURE::geodepy/angles.py::%s' % f.qualname
+        probs = []
+        if pur.mut_self[id(f)] is not None:
+            probs.append(pur.mut_self[id(f)][0])
+        for pn, (site, path) in pur.mut_params[id(f)].items():
+            probs.append(site)
+        own = [s_ for s_ in probs if s_.func is f]
+        if own:
+            rep.violated('R-PURE', key + '::' + own[0].target, own[0].where, '%s modifies its operand in place (%s): an expression that uses the operand again sees the changed value' % (
+                f.qualname, own[0].text[:80]), expected='a new angle object', actual=own[0].text[:120])
+        else:
+            rep.holds('R-PURE', key, where(f, f.node), 'does not modify its operands', work=bool(probs) or n % 10 == 0)
+    rep.floor('R-PURE', 100, 'methods of the five angle classes')
+
+
 def run(repo, rep):
     alg.reset()
     rep.trust('opaque call atoms for .dec() and the notation conversions; their own correctness is C08')
-    rep.assume('HP validation inside HPAngle.__init__ is not re-examined here (C08 validator agreement)')
+    rep.assume('HP validation inside HPAngle.__init__ is re-used from C08 (validator agreement, carry cascade)')
     operator_rules(repo, rep)
     completeness_rule(repo, rep)
     sign_rules(repo, rep)
+    purity_rules(repo, rep)
+    # construction of an HP result must not fail or be off by a degree: the rules of C08 that guard it
+    from . import c08
+    c08.validator_rules(repo, rep)
+    c08.carry_rule(repo, rep)
 
 
 def controls(repo):
